@@ -276,6 +276,15 @@ Proof.
       destruct (after_prefix (cS c1 run rc sh j)) as [[[]| |] cc| [] cc| | |]; destruct r as [| | | |]; cbn [bfin] in BF; try contradiction; auto.
 Qed.
 
+(* ---- the fast-path threshold ---------------------------------------------------------------------------------------------- *)
+(* The only fact about the regenerated threshold [fast_path_words] (Gen/DecTabs.v: the constant of the test
+   `(limit - next) >= 32` in retrieve()) that the safety proof needs: that many 32-bit words hold the bits of a
+   whole group, GROUP_SIZE symbols of at most MAX_CODE_LENGTH bits.  Then, with the >= 12 bits that are in the bit
+   buffer at the head of the group loop, the GROUP_SIZE executions of NEED_FAST never read *next with next == limit
+   ([fast_loop_ok]).  A source with a smaller threshold makes this lemma fail; a larger one is accepted. *)
+Lemma fast_path_words_enough : GROUP_SIZE * MAX_CODE_LENGTH <= 32 * fast_path_words.
+Proof. vm_compute. discriminate. Qed.
+
 (* ---- one pass of the machine, with or without the fast path ------------------------------------------------------------- *)
 Lemma onestep_ok b p st : Inv p (s_core st) -> words_ok (l_next st) -> out_ok p st (onestep b p st).
 Proof.
@@ -289,7 +298,7 @@ Proof.
   rewrite onestep_false in SL. unfold sstep in SL. cbn [step fst] in SL. unfold group_head in SL.
   destruct (group_select (s_core st)) as [c1|r] eqn:EG; cbn [andb fst snd] in *.
   2:{ rewrite with_next_id. exact SL. }
-  destruct (32 <=? N.of_nat (length (l_next st))) eqn:E32; [|cbn [fst snd]; rewrite with_next_id; exact SL].
+  destruct (fast_path_words <=? N.of_nat (length (l_next st))) eqn:E32; [|cbn [fst snd]; rewrite with_next_id; exact SL].
   destruct G as (HJ1 & Hg & Ht & HT & Ev & Ew).
   assert (HTn : nth_error (r_tree c1) (N.to_nat (r_t c1)) = Some (nth (N.to_nat (r_t c1)) (r_tree c1) garbage_tree)).
   { apply nth_error_nth'. destruct HJ1 as ((_ & _ & _ & L & _) & _). lia. }
@@ -299,6 +308,7 @@ Proof.
     change (0 <? GROUP_SIZE) with true. cbn iota. cbn [sh_ok]. exists o. unfold J_prefix.
     split; [apply J_group_j; exact HJ1|]. dcore c1. rsa. repeat split; auto; lia. }
   apply N.leb_le in E32.
+  pose proof fast_path_words_enough as FPW. change (GROUP_SIZE * MAX_CODE_LENGTH) with 1000 in FPW.
   pose proof (fast_loop_ok (N.to_nat GROUP_SIZE) _ c1 (l_next st) (r_run c1) (r_runChar c1) (r_shift c1) 0
                 ltac:(reflexivity) HTn HS (buf_ok_frame _ _ Ev Ew HB) HW
                 ltac:(unfold bitsleft; change (N.of_nat (N.to_nat GROUP_SIZE)) with 50; lia) ltac:(lia)) as F.
